@@ -56,8 +56,57 @@ class Layout:
         self.jobid_field = ji[0] if len(ji) == 1 else None
         self.bool_fields = [i for i, f in enumerate(ni) if f["ty"]["s"] == "bool"]
 
+        usage = {}
+
+        def field_usage():
+            """in how many method bodies of the evaluator is each of its fields mentioned?"""
+            if usage:
+                return usage
+            pre = self.evaluator.split("<")[0] + "::"
+            for nm in facts.order:
+                b = facts.bodies[nm]
+                if not nm.startswith(pre) or b.kind == "Promoted" or not b.locals or len(b.locals) < 2:
+                    continue
+                if b.locals[1]["s"].lstrip("&").replace("mut ", "").split("<")[0] != self.evaluator.split("<")[0]:
+                    continue
+                seen_f = set()
+
+                def visit_place(pl):
+                    if pl is not None and pl.get("l") == 1:
+                        fs = [e for e in pl["p"] if e["k"] == "field"]
+                        if fs:
+                            seen_f.add(fs[0]["i"])
+                for blk in b.blocks:
+                    for st_ in blk["stmts"]:
+                        if st_["k"] != "assign":
+                            continue
+                        visit_place(st_["p"])
+                        r_ = st_["r"]
+                        if r_["k"] in ("ref", "rawptr", "discr", "len"):
+                            visit_place(r_["p"])
+                        for key_ in ("o", "a", "b"):
+                            o_ = r_.get(key_)
+                            if isinstance(o_, dict):
+                                visit_place(o_.get("copy") or o_.get("move"))
+                        for o_ in r_.get("fields", ()) if r_["k"] == "agg" else ():
+                            visit_place(o_.get("copy") or o_.get("move"))
+                    t_ = blk["term"]["t"]
+                    if t_["k"] == "call":
+                        for o_ in t_["args"]:
+                            visit_place(o_.get("copy") or o_.get("move"))
+                for i_ in seen_f:
+                    usage[i_] = usage.get(i_, 0) + 1
+            return usage
+
         def one(pred, what):
             xs = [i for i, f in enumerate(self.self_fields) if pred(f["ty"]["s"])]
+            if len(xs) > 1:
+                # several fields of that type (e.g. a cache added next to the original): the one the evaluator's methods mention
+                # most is the structure itself - if that is clear-cut
+                u = field_usage()
+                ranked = sorted(xs, key=lambda i_: -u.get(i_, 0))
+                if u.get(ranked[0], 0) >= 2 * max(1, u.get(ranked[1], 0)):
+                    return ranked[0]
             if len(xs) != 1:
                 raise Imprecision("cannot identify evaluator field: %s (%r)" % (what, xs))
             return xs[0]
